@@ -553,6 +553,14 @@ def rule_expressible(ctx: Ctx, rep: Report) -> None:
             missing = [x for x in need if not any(t == x for t in facts)]  # == and not `in`: texts compare up to a renamed temporary
             rep.ob(rule, f"{q}:{callee}", not missing, fi.where(c),
                    f"under {need}" if not missing else f"reached without the guard(s) {missing}: libsecp256k1 cannot express that operand")
+    # who may call: the arithmetic wrapper that cannot express a zero scalar or infinity is called from the
+    # reviewed (guarded) sites and from nowhere else -- a new call site is a site nobody read the guards of
+    reviewed = {q for q, callee, _ in EXPRESSIBLE if callee == "_libsecp256k1_multi_mult"} | {"btclib.curves.curve.multi_mult_var"}
+    for q2, f2 in sorted(ctx.prog.functions.items()):
+        for c in own_nodes(f2.node):
+            if isinstance(c, ast.Call) and call_name(c) == "_libsecp256k1_multi_mult" and f2.name != "_libsecp256k1_multi_mult":
+                rep.ob(rule, f"{q2}:calls:_libsecp256k1_multi_mult", q2 in reviewed, f2.where(c), "a reviewed, guarded call site" if q2 in reviewed else
+                       f"`{f2.name}` hands scalars and points to libsecp256k1 itself, past the dispatching functions and their guards: a zero coefficient or a point at infinity, which the Python arithmetic answers, is a bare ValueError here")
     # multi_mult_var: more than one term, none zero / infinity
     mm = ctx.func("btclib.curves.curve.multi_mult_var")
     g = ctx.cfg(mm)
